@@ -91,7 +91,8 @@ class RefStore:
         if max_age is not None and re.fullmatch(r"-?\d+", str(max_age)):
             delta = int(max_age)      # a malformed Max-Age is ignored (§5.2.2)
         if delta is not None:
-            expiry = now + delta if delta > 0 else float("-inf")
+            # (a user agent may cap the lifetime at the latest date it can represent)
+            expiry = now + min(delta, 10 ** 12) if delta > 0 else float("-inf")
         elif expires is not None:
             expiry = parse_rfc1123(expires)
         key = (name, dom, path)
